@@ -494,10 +494,13 @@ class TriggerHandler:
         # take no further actions, even for threads that keep calling our trace function
         self.__shutdown = True
         self._tp_config = []
-        if self._config.NO_TRACE:
-            # we never installed our hooks, so there is nothing of ours to remove
+        if not self.__hooks_installed:
+            # we never installed our hooks, so there is nothing of ours to remove (what start() has found, not what
+            # the configuration says now)
             return
-        if hasattr(self.__start_thread, 'old') and sys.gettrace() == self.trace_call and not self._callbacks.is_set:
+        # (asked first: it is a call, which is traced - by us, and we may leave the thread by ourselves right there)
+        pending = self._callbacks.is_set
+        if hasattr(self.__start_thread, 'old') and sys.gettrace() == self.trace_call and not pending:
             sys.settrace(self.__put_back(self.__start_thread.old))
             del self.__start_thread.old
         # else: the function of the calling thread is not ours to replace; the starting thread removes us itself, at
